@@ -1,5 +1,7 @@
 """C15 -- a schedule's stream depends only on its own parameters.
 
+(e) aborted / preempted predecessors, see vf/faults.py.
+
 (a) sequential histories: every history of length 1 over the full alphabet x
     3 modes, and of length 2 over the sub-alphabet x 3 modes, followed by each
     observed configuration;
@@ -436,13 +438,92 @@ def check(prop, tier):
     res.counters["crowd_histories"] = ncrowd
     res.bounds["crowd_sizes"] = list(KS)
 
+    # ------------------------------------------------------------ (e)
+    # aborted and preempted predecessors (vf/faults.py): every line of the
+    # library executed by a victim run is a point where the run is aborted by
+    # a BaseException (then the group is observed), or where another object
+    # is built and driven to the end as by a thread switch (then the victim
+    # finishes and the group is observed)
+    from . import faults as F
+    groups = F.alphabet(tier)
+    fcfgs = []
+    for g in groups:
+        for c in g:
+            if c.key() not in [x.key() for x in fcfgs]:
+                fcfgs.append(c)
+    fbase = dict(zip([c.key() for c in fcfgs], I.baselines(fcfgs)))
+    for c in fcfgs:
+        if fbase[c.key()]["error"]:
+            res.harness_error(f"baseline of {c!r} raised "
+                              f"{fbase[c.key()]['error']}")
+    ftasks = F.tasks(tier)
+
+    def worker_e(i):
+        mode, gi, vi, obs = ftasks[i]
+        g = groups[gi]
+        oc = [g[x] for x in obs]
+        o = F.explore_victim(g[vi], fbase[g[vi].key()], oc,
+                             [fbase[c.key()] for c in oc], mode=mode)
+        o["task"] = i
+        return o
+    npoints = {"abort": 0, "preempt": 0}
+    nfired = {"abort": 0, "preempt": 0}
+    nfexec = 0
+    for o in common.pmap_dynamic(worker_e, list(range(len(ftasks)))):
+        mode, gi, vi, obs = ftasks[o["task"]]
+        g = groups[gi]
+        npoints[mode] += o["points"]
+        nfired[mode] += o["delivered"]
+        nfexec += o["executions"]
+        if o["capped"]:
+            res.harness_error(f"abort points of {g[vi]!r} were capped")
+        if o["delivered"] == 0:
+            res.harness_error(f"vacuous: no {mode} point was reached in "
+                              f"{g[vi]!r}")
+        for k, j, msg in o["bad"][:3]:
+            oc = [g[x] for x in obs]
+            # confirm in a fresh interpreter (same execution, nothing else
+            # in the process) before reporting
+            m2 = F.fresh_once(g[vi], k, oc, mode)
+            if m2 is None:
+                res.harness_error(
+                    f"{mode} of {g[vi]!r} at point {k}: mismatch in the "
+                    f"worker ({msg}) not reproduced in a fresh interpreter")
+                continue
+            if isinstance(m2, str) and m2.startswith("HARNESS"):
+                res.harness_error(m2)
+                continue
+            rp = common.write_replay(prop, f"{mode}ed_predecessor", {
+                "property": prop, "kind": "c15_fault", "mode": mode,
+                "victim": g[vi].as_json(), "point": k,
+                "observed": [c.as_json() for c in oc]})
+            what = ("aborted by a BaseException" if mode == "abort" else
+                    f"preempted (the other thread runs {oc[0]!r} to the end)")
+            res.violation({"code": f"{mode}ed_predecessor", "cls": g[vi].cls},
+                          f"{g[vi]!r} {what} at library line event {k}; "
+                          f"afterwards {m2}", rp)
+    res.add(evaluations=nfexec, states=sum(npoints.values()),
+            transitions=sum(npoints.values()),
+            traces_validated_against_impl=nfexec)
+    res.counters["abort_points"] = npoints["abort"]
+    res.counters["aborts_delivered"] = nfired["abort"]
+    res.counters["preemption_points"] = npoints["preempt"]
+    res.counters["preemptions_delivered"] = nfired["preempt"]
+    res.counters["fault_executions"] = nfexec
+    res.bounds["fault_groups"] = len(groups)
+    res.bounds["fault_victims"] = len(ftasks)
+
     res.cov["distinct_nontrivial"] = share + nseq
     res.cov["rule"] = ("(a) all histories of length 1 (full alphabet x 3 modes) "
                        "and length 2 (sub-alphabet) before each observed "
                        "configuration; (b) all ordered pairs of the "
                        "sub-alphabet under every schedule with <= P "
                        "preemptions; (c) all placements of one observer call / "
-                       "one or two observer bundles; memo tables are emptied "
+                       "one or two observer bundles; (d) crowds; (e) every "
+                       "library line of a victim run as abort point "
+                       "(BaseException) and as preemption point (another "
+                       "object built and driven to the end there), the "
+                       "sibling group observed afterwards; memo tables are emptied "
                        "before every execution so that fill order is really "
                        "varied; non-trivial = sequential histories + ordered "
                        "pairs of one algorithm family (or sharing memo keys)")
@@ -455,8 +536,10 @@ def check(prop, tier):
     res.assumptions = [
         "baseline = stream printed by a fresh interpreter that builds only "
         "that one object (PYTHONHASHSEED=0)",
-        "threads are cooperative (generators); OS-thread races are outside "
-        "the statement",
+        "concurrency = cooperative interleaving at action granularity (b) "
+        "plus ONE thread switch at any library line, the other thread running "
+        "to completion (e); finer OS-thread races (two or more switches "
+        "inside one call) are not explored",
         f"preemption bound {P}; alphabets listed in vf/interleave.py"]
     return common.finish(res)
 
@@ -473,6 +556,14 @@ def replay(prop, payload):
     elif k == "c15_seq":
         m = fresh_seq_many([([tuple(h) for h in payload["history"]],
                              payload["observed"])])[0]
+        print(m)
+        bad = m is not None
+    elif k == "c15_fault":
+        from . import faults as F
+        m = F.fresh_once(D.Config.from_json(payload["victim"]),
+                         payload["point"],
+                         [D.Config.from_json(c) for c in payload["observed"]],
+                         payload["mode"])
         print(m)
         bad = m is not None
     elif k == "c15_crowd":
